@@ -3688,6 +3688,7 @@ class DecVarSub(VarSub):
             raise ValueError('Model mismatch.')
 
         self.fixed = False
+        self.rand_adapt = self.dvars.rand_adapt
         if self.rand_adapt is None:
             sup_model = self.dro_model.sup_model
             self.rand_adapt = np.zeros((self.size, sup_model.vars[-1].last),
